@@ -554,7 +554,10 @@ def rule_r11(facts, col, rule_id="C02.R11"):
             div = False
             for rb, si, e in assigns_to_return(body):
                 p = peel(e, through_try=False)
-                if p.k == "bin" and p.op == "Div" and any(x.k == "call" and x.bb == bb for x in walk(p.a)):
+                if not (p.k == "bin" and p.op == "Div"):
+                    p2 = expand_local_call(facts, p)         # `samples_in(bytes, self.member_size)`: a helper doing the division
+                    p = peel(p2, through_try=False)
+                if p.k == "bin" and p.op == "Div" and any(x.k == "call" and (x.bb == bb or x.q == CIRC_TOTAL) for x in walk(p.a)):
                     div = True
             if div:
                 col.ok(rule_id, key, body.where(bb), "byte length divided by the element size")
